@@ -5,7 +5,7 @@ HARNESS_FILES = ["verif_c16.rs"]
 P = "verif_c16::"
 MANIFEST = dict(
     category="other",
-    text="Decides the contract-expressible half: best_starting_depth(r) is proved, for every f64 below the depth-0 limit, to return the deepest depth whose tabulated limit exceeds r (strictly decreasing table, every depth reachable, refusal by panic for larger radii/NaN, has_best_starting_depth <=> below the limit); That the '_with_radius' envelopes dominate the pointwise ones was attempted (two formulations, CBMC did not finish in 15 min) and is reported as not decided. That these envelopes bound the TRUE centre-to-vertex distance, and that a cone below the tabulated limit fits in 9 cells, is spherical geometry no installed verifier can express: stated as not decided.",
+    text="Decides the contract-expressible half: best_starting_depth(r) is proved, for every f64 below the depth-0 limit, to return the deepest depth whose tabulated limit exceeds r (strictly decreasing table, every depth reachable, refusal by panic for larger radii/NaN, has_best_starting_depth <=> below the limit); The region dispatch of largest_center_to_vertex_distance(_with_radius) is proved never to call a region function outside its documented latitude range in the equatorial region (the obligation that refuted the original code: finding D17; the polar-cap branch is excluded because CBMC over-approximates the float remainder `%`); the start-depth table carries a transcription guard (each limit more than twice the next, ratios decreasing towards 2). That the '_with_radius' envelopes dominate the pointwise ones was attempted (two formulations, CBMC did not finish in 15 min) and is reported as not decided. That these envelopes bound the TRUE centre-to-vertex distance, and that a cone below the tabulated limit fits in 9 cells, is spherical geometry no installed verifier can express: stated as not decided.",
     note="Proved obligations are complete over all doubles (loop-free CBMC queries). Not decided: geometric meaning of the table and of the envelopes (true distances on the sphere); dominance across region borders; the multi-depth variant (Vec + lazily created constants through libm).",
     technique="Kani full-domain harnesses over IEEE-754 doubles (CBMC) on the real functions; no libm involved",
 )
